@@ -24,7 +24,7 @@ LEVEL_TEXT = ("Decides on the type-checked MIR of the current tree: (R1) the eva
               "HeaderValue::from_str(&location) is known to have returned Ok, whose RedirectHeaders.location is the argument unmodified and whose status type (from the return type) has the "
               "right evaluated code; every source of the Err payload is an HttpError constructor called only where the validation is known to have failed and given that validation's error; "
               "HttpResponseHeaders::new stores the given headers and an empty explicit map; the header is named `location`; (R7) to_map stores "
-              "key and string value unmodified. Not decided: that serde_json's output parses back to the same value; http::HeaderMap::{insert,extend} semantics.")
+              "key and string value unmodified. Not decided: that serde_json's output parses back to the same value; http::HeaderMap::{insert,extend} semantics. Also (R7): serialize_field returns Ok only through the insert into the output map -- no declared header is dropped for its value.")
 LEVEL_NOTE = ("Trusts rustc MIR construction + const evaluation, the fact extractor, the engine's normalisation (helper inlining, combinator desugaring, jump threading), serde_json::to_string, "
               "http::response::Builder, HeaderMap::insert/extend (extend replaces an existing name on its first occurrence), HeaderValue::from_str.")
 EXPLANATION = ("CONST table over ctx.ds.const_list joined with the impl table; CHAIN slices of the operands of Builder::status / header / body and BTreeMap::insert with "
